@@ -1874,7 +1874,12 @@ func trackerAnnounce(ctx context.Context, t *Torrent) {
 		for _, tr := range tl {
 			state, _ := tr.GetState()
 			if state == tracker.Ready {
-				go trackerAnnounceSingle(ctx, t, tr)
+				// t.peers belongs to the main loop
+				want := config.MaxPeersPerTorrent - len(t.peers)
+				if want < 0 {
+					want = 0
+				}
+				go trackerAnnounceSingle(ctx, t, tr, want)
 				return
 			}
 			if state != tracker.Error {
@@ -1886,7 +1891,7 @@ func trackerAnnounce(ctx context.Context, t *Torrent) {
 }
 
 func trackerAnnounceSingle(ctx context.Context,
-	t *Torrent, tr tracker.Tracker) error {
+	t *Torrent, tr tracker.Tracker, want int) error {
 	t.Log.Printf("Tracker announce to %v", tr.URL())
 	var port4, port6 int
 	if !t.hasProxy() {
@@ -1896,10 +1901,6 @@ func trackerAnnounceSingle(ctx context.Context,
 	var length int64
 	if t.InfoComplete() {
 		length = t.Pieces.Length()
-	}
-	want := config.MaxPeersPerTorrent - len(t.peers)
-	if want < 0 {
-		want = 0
 	}
 	err := tr.Announce(ctx, t.Hash, t.MyId,
 		want, length, port4, port6, t.proxy,
